@@ -44,7 +44,7 @@ ELEM = {
 }
 ELEM_NAME = {v: k for k, v in ELEM.items()}
 # element types the generator uses (numpy has them natively)
-GEN_ELEMS = [1, 2, 3, 4, 5, 6, 7, 8, 9, 10, 11, 12, 13]
+GEN_ELEMS = [1, 2, 3, 4, 5, 6, 7, 8, 9, 10, 11, 12, 13, 14, 15]
 NP_OF = {
     1: np.float32, 2: np.uint8, 3: np.int8, 4: np.uint16, 5: np.int16, 6: np.int32, 7: np.int64,
     8: np.str_, 9: np.bool_, 10: np.float16, 11: np.float64, 12: np.uint32, 13: np.uint64,
@@ -285,8 +285,13 @@ def _pick(rng, weighted):
     return weighted[-1][0]
 
 
-def _rand_dims(rng, rank, sym_pool=("N", "M", "K")):
+SYM_POOLS = [(("N", "M", "K"), 84), (("batch_size", "N", "d_\u00e9"), 8), (("0", "unk_1", "N"), 8)]
+_SYM_POOL = [("N", "M", "K")]  # the pool of the call being generated (set by gen_call)
+
+
+def _rand_dims(rng, rank, sym_pool=None):
     dims = []
+    sym_pool = sym_pool or _SYM_POOL[0]
     for _ in range(rank):
         k = rng.random()
         if k < 0.72:
@@ -400,6 +405,26 @@ def _gen_attr_value(rng, op_name, aname, a, rank, is_dtype=False):
     return None  # GRAPH / SPARSE_TENSOR: not generated
 
 
+def _known_scalar(rng, call, v, p):
+    """with probability p make Var `v` (int / bool / float tensor with a concrete shape of at most 6
+    elements) a constant with a known value, and switch value propagation on for the call"""
+    if v is None or rng.random() >= p:
+        return
+    var = call["vars"][v]
+    t = var["ty"]
+    if t is None or "t" not in t or t["s"] is None or not all(isinstance(d, int) for d in t["s"]) or t["t"] in (14, 15):
+        return
+    n = int(np.prod(t["s"] or [1]))
+    if n > 6:
+        return
+    if t["t"] in (6, 7):
+        data = [rng.choice([0, 1, 2, 3, 5]) for _ in range(n)]
+    else:
+        data = _const_data(rng, t["t"], t["s"])
+    var["const"] = {"dtype": t["t"], "shape": list(t["s"]), "data": data}
+    call.setdefault("vp", _pick(rng, [("default", 45), ("reference", 40), ("none", 15)]))
+
+
 def _gen_body_call(rng, op: Op, force: Optional[str] = None) -> dict:
     """If / Loop: bodies are Identity nodes over outer-scope values (`sub` names them by Var id)."""
     family = force or _pick(rng, [("plain", 70), ("illtyped", 14), ("untyped", 6), ("unkrank", 10)])
@@ -486,6 +511,7 @@ def _gen_body_call(rng, op: Op, force: Optional[str] = None) -> dict:
             els = els[:-1] or els
         call = {"module": op.module, "op": "If", "vars": vars_, "args": [cond], "attrs": {},
                 "sub": {"then": then, "else": els}, "out_count": len(els), "family": family}
+        _known_scalar(rng, call, cond, 0.35)
     else:
         M = tvar(7 if family != "illtyped" or rng.random() < 0.6 else 6, [] if rng.random() < 0.8 else [1]) if rng.random() < 0.7 else None
         cond = tvar(cond_elem, cond_shape) if rng.random() < 0.7 else None
@@ -498,10 +524,53 @@ def _gen_body_call(rng, op: Op, force: Optional[str] = None) -> dict:
         scan = [pool_var(k) for k in range(rng.choice([0, 0, 1, 2]) if nc else rng.choice([1, 2]))]
         call = {"module": op.module, "op": "Loop", "vars": vars_, "args": [M, cond, carried], "attrs": {},
                 "sub": {"carried": csrc, "scan": scan}, "out_count": nc + len(scan), "family": family}
+        # a trip count / condition whose VALUE is known at the call: the number of iterations is still
+        # not (the body may end the loop), so nothing about the outputs may be derived from it
+        _known_scalar(rng, call, M, 0.5)
+        _known_scalar(rng, call, cond, 0.4)
+        for v in carried:
+            _known_scalar(rng, call, v, 0.15)
     if family == "untyped":
         present = [v for a in call["args"] for v in (a if isinstance(a, list) else [a]) if v is not None]
         if present:
             vars_[rng.choice(present)] = {"ty": None, "const": None}
+    return call
+
+
+# operators whose ONNX shape inference aborts the process natively on an empty constant operand
+# (seen: OneHot with an empty `depth`/`values` -> libstdc++ assertion): never given zero-size dims
+ZERO_DIM_FRAGILE = {"OneHot", "SplitToSequence"}
+
+
+def zeroize(rng, call) -> bool:
+    """Make one or two constant dimensions of the operands 0 (zero-size tensors: `if dim:` /
+    `if shape:` truthiness confuses 0 with unknown and () with None). Constants follow their type."""
+    if call["op"] in ZERO_DIM_FRAGILE:
+        return False
+    cands = []
+    for i, v in enumerate(call["vars"]):
+        t = v["ty"]
+        while t is not None and "t" not in t:
+            t = t.get("seq") or t.get("opt")
+        if t is not None and t["s"]:
+            cands += [(t, v, k) for k, d in enumerate(t["s"]) if isinstance(d, int) and d > 0]
+    if not cands:
+        return False
+    for t, v, k in rng.sample(cands, min(len(cands), rng.choice([1, 1, 2]))):
+        t["s"][k] = 0
+        if v["const"] is not None and v["ty"] is t:
+            v["const"] = {"dtype": t["t"], "shape": list(t["s"]), "data": []}
+    call["zero_dim"] = True
+    return True
+
+
+TWL = ["NONE", "CRITICAL", "INITIAL", "OUTPUTS"]
+
+
+def _ambient(rng, call):
+    """ambient scoped settings the verdict must not depend on: the type-warning level"""
+    if "skip" not in call and rng.random() < 0.1:
+        call["twl"] = rng.choice(TWL)
     return call
 
 
@@ -549,8 +618,9 @@ def constify(rng, call) -> bool:
 def gen_call(rng, op: Op, force: Optional[str] = None) -> dict:
     """One abstract constructor call for `op`. `force` selects a calling-form family
     ("constfed": every operand a known constant, value propagation on)."""
+    _SYM_POOL[0] = _pick(rng, SYM_POOLS)
     if op.name in BODY_OPS:
-        return _gen_body_call(rng, op, "plain" if force == "constfed" else force)
+        return _ambient(rng, _gen_body_call(rng, op, "plain" if force == "constfed" else force))
     constfed = force == "constfed"
     if constfed:
         force = "plain"
@@ -744,7 +814,9 @@ def gen_call(rng, op: Op, force: Optional[str] = None) -> dict:
             if "num_outputs" in sch.attributes:
                 # Split-18+: the constructor takes the number of outputs from `num_outputs`
                 call["attrs"]["num_outputs"] = call["out_count"]
-    return call
+    if rng.random() < 0.07:
+        zeroize(rng, call)
+    return _ambient(rng, call)
 
 
 # operators that need a minimum rank to be accepted at all
@@ -1114,6 +1186,46 @@ def oracle_model(op: Op, call, explicit_defaults: bool = False, optional_outputs
     return onnx.helper.make_model(graph, opset_imports=[onnx.helper.make_operatorsetid(op.domain, op.modver)])
 
 
+def ty_relation(sp, on) -> str:
+    """How a type `sp` reported by a constructor relates to ONNX's `on` for the same output:
+    'eq' | 'refines' (says more, contradicts nothing) | 'weaker' (forgets something ONNX inferred)
+    | 'untyped' (no type although ONNX inferred one) | 'contradicts'. Pure data, no spox."""
+    if sp == on:
+        return "eq"
+    if sp is None:
+        return "untyped"
+    if on is None:
+        return "refines"
+    if not isinstance(sp, dict) or not isinstance(on, dict):
+        return "contradicts"
+    for k in ("seq", "opt"):
+        if (k in sp) != (k in on):
+            return "contradicts"
+        if k in sp:
+            r = ty_relation(sp[k], on[k])
+            return "weaker" if r == "untyped" else r
+    if "t" not in sp or "t" not in on or sp["t"] != on["t"]:
+        return "contradicts"
+    a, b = sp["s"], on["s"]
+    if b is None:
+        return "refines"
+    if a is None:
+        return "weaker"
+    if len(a) != len(b):
+        return "contradicts"
+    more = less = False
+    for x, y in zip(a, b):
+        if x == y:
+            continue
+        if y is None or (isinstance(x, int) and isinstance(y, str)):
+            more = True
+        elif x is None or (isinstance(x, str) and isinstance(y, int)):
+            less = True
+        else:
+            return "contradicts"  # two different constants / two different symbols
+    return "weaker" if less else "refines" if more else "eq"
+
+
 def has_optional_outputs(op: Op) -> bool:
     O = onnx.defs.OpSchema.FormalParameterOption
     return any(p.option == O.Optional for p in op.schema().outputs)
@@ -1371,11 +1483,19 @@ def run_spox(op: Op, call, value_prop: bool = False, vs=None, keep_outputs: bool
             except Exception as e:  # noqa: BLE001
                 res["obs_errors"].append(f"value_prop_backend switch: {type(e).__name__}: {e}"[:200])
 
+        ctx2 = contextlib.nullcontext()
+        if call.get("twl"):
+            try:
+                import spox._future as fut2
+
+                ctx2 = fut2.type_warning_level(getattr(fut2.TypeWarningLevel, call["twl"]))
+            except Exception as e:  # noqa: BLE001
+                res["obs_errors"].append(f"type_warning_level switch: {type(e).__name__}: {e}"[:200])
         onnx.shape_inference.infer_shapes = rec
         if node_mod is not None:
             node_mod.Node.inference = inference
         try:
-            with ctx, (_quiet_fd2() if vp == "onnxruntime" else contextlib.nullcontext()):
+            with ctx, ctx2, (_quiet_fd2() if vp == "onnxruntime" else contextlib.nullcontext()):
                 out = fn(**kwargs)
         except Exception as e:  # noqa: BLE001
             res["raised"] = type(e).__name__
